@@ -279,7 +279,7 @@ def gen(rng, nrng, tier):
             if np.linalg.cond(Mx) <= 1e8:
                 yield ("arma_laws", {"x": x, "P": P, "Q": Q, "lag": lag, "dkind": kind})
         cls = CLASSES[i % len(CLASSES)]
-        Pc, Qc, lagc = [(2, 2, 6), (4, 4, 10), (5, 5, 12), (3, 1, 6)][i % 4]
+        Pc, Qc, lagc = [(2, 2, 6), (4, 4, 10), (5, 5, 12), (3, 1, 6), (2, 4, 8), (1, 3, 7), (2, 3, 7)][i % 7]
         if not _in_domain(N, Pc, Qc, lagc) or 2 * Qc + 1 >= N:
             Pc, Qc, lagc = 2, 2, 6          # keep the class case inside arma_estimate's documented domain
         nfft = [64, 65, None, 48, 33][i % 5]
